@@ -127,24 +127,92 @@ class Family:
 
 
 _FAMILIES = {}
-_ROOT = None
 MEMBER_HIST = {}
 
 
 def family(fi):
-    global _ROOT
     if fi not in _FAMILIES:
-        import yaql
         _FAMILIES[fi] = Family(fi)
-        if _ROOT is None:
-            _ROOT = yaql.create_context()
     return _FAMILIES[fi]
 
 
-def engine():
-    """the base engine of family 0 (the engine of the earlier rounds) and the root context"""
-    f = family(0)
-    return f.base, _ROOT
+# ------------------------------------------------------------------ contexts and the history of create_context() calls
+#
+# The standard library a statement runs against is registered by `yaql.create_context(**flags)`; two of the flags change
+# what C13's functions mean (`group_by_agg_fallback`: groupBy retries a failing aggregator in the pre-1.1.1 style;
+# `no_sets`: no set functions).  A context made with given flags must behave as documented for THOSE flags whatever other
+# contexts the process has made before: every job runs in a fresh process and begins by creating the contexts of all
+# recipes - and decoys with every other keyword of create_context - in an order drawn with the job; a case picks a recipe
+# and uses the context made then, or (now and then) one made on the spot, after all that history.
+
+CONTEXT_RECIPES = [dict(), dict(), dict(group_by_agg_fallback=False), dict(group_by_agg_fallback=False), dict(no_sets=True),
+                   dict(delegates=True), dict(group_by_agg_fallback=False, no_sets=True),
+                   dict(group_by_agg_fallback=False, delegates=True), dict(own_root=True),
+                   dict(own_root=True, group_by_agg_fallback=False)]
+N_DECOYS = 6
+_CONTEXTS = {}
+HISTORY = []            # the order in which this process called create_context: recipe numbers, decoys as -1-k
+CONTEXT_HIST = {}
+
+
+def make_context(ri):
+    import yaql
+    from yaql.language import contexts, conventions
+    if ri >= 0:
+        kw = dict(CONTEXT_RECIPES[ri])
+        if kw.pop('own_root', False):
+            kw['context'] = contexts.Context(convention=conventions.CamelCaseConvention())   # a root supplied by the host
+        return yaql.create_context(**kw)
+    k = -1 - ri
+    decoys = [dict(convention=conventions.PythonConvention()), dict(data=[1, {'a': 2}]), dict(strings=False, regex=False),
+              dict(datetime=False, yaqlized=False, math=False), dict(convention=conventions.PythonConvention(), no_sets=True,
+                                                                       group_by_agg_fallback=False),
+              dict(delegates=True, data={'x': 1}, branching=False)]
+    return yaql.create_context(**decoys[k % len(decoys)])
+
+
+def setup_history(rng=None, order=None):
+    """create the contexts of all recipes and the decoys, in a drawn (or replayed) order"""
+    if HISTORY:
+        return
+    if order is None:
+        order = list(range(len(CONTEXT_RECIPES))) + [-1 - k for k in range(N_DECOYS)]
+        rng.shuffle(order)
+    for ri in order:
+        c = make_context(ri)
+        HISTORY.append(ri)
+        if ri >= 0:
+            _CONTEXTS[ri] = c
+
+
+def root_for(ctx):
+    """the root context of a case: ctx = (recipe, fresh)"""
+    ri, fresh = ctx
+    if not HISTORY:
+        setup_history(order=list(range(len(CONTEXT_RECIPES))))
+    CONTEXT_HIST[(ri, fresh)] = CONTEXT_HIST.get((ri, fresh), 0) + 1
+    if fresh or ri not in _CONTEXTS:
+        HISTORY.append(ri)
+        return make_context(ri)
+    return _CONTEXTS[ri]
+
+
+def case_opts(m, ctx=None):
+    """the options of the member's engine and the flags of the context's recipe"""
+    o = member_opts(m[0], m[1])
+    r = CONTEXT_RECIPES[ctx[0]] if ctx else {}
+    o.af, o.ns = r.get('group_by_agg_fallback', True), r.get('no_sets', False)
+    return o
+
+
+def show_ctx(ctx):
+    if not ctx:
+        return 'create_context()'
+    r = dict(CONTEXT_RECIPES[ctx[0]])
+    own = r.pop('own_root', False)
+    return 'create_context(%s%s)%s' % ('context=<own root>, ' if own and r else 'context=<own root>' if own else '',
+                                       ', '.join('%s=%r' % kv for kv in sorted(r.items())),
+                                       ' made just now' if ctx[1] else '')
 
 
 def pick_members(rng):
@@ -260,11 +328,12 @@ def same_host(a, b):
     return a == b
 
 
-def run_real_once(text, host_data, member, timeout=5):
+def run_real_once(text, host_data, member, timeout=5, ctx=None):
     """-> ('ok', value) | ('err', class) ; the third component: the host's document was changed by the evaluation"""
     import copy
     fi, mi, how = member
     fam = family(fi)
+    root = root_for(ctx or (0, False))
     MEMBER_HIST[how] = MEMBER_HIST.get(how, 0) + 1
     before = None if hasattr(host_data, '__next__') else copy.deepcopy(host_data)
 
@@ -278,13 +347,13 @@ def run_real_once(text, host_data, member, timeout=5):
         signal.setitimer(signal.ITIMER_REAL, timeout)
         try:
             if how == 'percall':
-                r = fam.base(text, options=member_delta(fi, mi)).evaluate(data=host_data, context=_ROOT.create_child_context())
+                r = fam.base(text, options=member_delta(fi, mi)).evaluate(data=host_data, context=root.create_child_context())
             elif how == 'fresh':
-                r = eng(text).evaluate(data=host_data, context=_ROOT.create_child_context())
+                r = eng(text).evaluate(data=host_data, context=root.create_child_context())
             else:
                 # one of the equivalent host paths (plain / reused statement / engine.copy / per-call options / document
                 # bound by the host) with this member's engine, chosen by the text: see harness/paths.py
-                r = paths.evaluate(eng, _ROOT, text, host_data)
+                r = paths.evaluate(eng, root, text, host_data)
             if not member_opts(fi, mi).co:
                 r = norm_raw(r)         # (consumed inside the watchdog)
             return ('ok', r, changed())
@@ -306,11 +375,11 @@ def size_of(f):
     return 1
 
 
-def run_real(text, make_host, member, timeout=5):
+def run_real(text, make_host, member, timeout=5, ctx=None):
     """a timeout is only believed when it repeats with a much longer allowance (loaded machine)"""
-    r = run_real_once(text, make_host(), member, timeout)
+    r = run_real_once(text, make_host(), member, timeout, ctx)
     if r[:2] == ('err', 'Timeout'):
-        r = run_real_once(text, make_host(), member, 8 * timeout)
+        r = run_real_once(text, make_host(), member, 8 * timeout, ctx)
     return r
 
 
@@ -457,7 +526,7 @@ def case_text(ops, binder=None, obs=None):
     return seqref.render_obs(ops, binder, obs) if obs is not None else seqref.render(ops, binder)
 
 
-def evaluate_case(value, ops, model_replies, binder=None, obs=None, members=None):
+def evaluate_case(value, ops, model_replies, binder=None, obs=None, members=None, ctx=None):
     """the same text through the members, in their order; `model_replies`: one per member.
     -> (failure or None, info) ; failure = (kind, what)"""
     members = members or [(0, 0, 'base')]
@@ -466,8 +535,8 @@ def evaluate_case(value, ops, model_replies, binder=None, obs=None, members=None
     failure = None
     handed_out = []                 # (member, result, snapshot): a result belongs to the host once it is handed out
     for i, (m, mr) in enumerate(zip(members, model_replies)):
-        opts = member_opts(m[0], m[1])
-        real3 = run_real(text, lambda: prepare(value, opts)[0], m)
+        opts = case_opts(m, ctx)
+        real3 = run_real(text, lambda: prepare(value, opts)[0], m, ctx=ctx)
         real, mutated = real3[:2], real3[2]
         if real[0] == 'ok':
             try:
@@ -486,7 +555,8 @@ def evaluate_case(value, ops, model_replies, binder=None, obs=None, members=None
             info.update(real=real, ref=ref, model=mr)
         if failure is not None:
             continue
-        via = 'through %s (use %d of %d of this text in the family)' % (show_member(m), i + 1, len(members))
+        via = 'through %s (use %d of %d of this text in the family), context %s (%d-th create_context call of the process)' % (
+            show_member(m), i + 1, len(members), show_ctx(ctx), len(HISTORY))
         if mutated:
             failure = ('oracle', '%s on %r %s: the evaluation changed the host\'s document' % (text, value, via))
         elif real == ('err', 'Timeout'):
@@ -602,11 +672,12 @@ def lam2_from_json(j):
     return [j[0]]
 
 
-def replay_of(value, ops, binder=None, obs=None, members=None):
+def replay_of(value, ops, binder=None, obs=None, members=None, ctx=None):
     return {'data': value_to_json(value), 'ops': [seqref.op_json(a, values.enc) for a in ops],
             'let': None if binder is None else seqref.op_json(binder, values.enc),
             'obs': None if obs is None else seqref.obs_json(obs, values.enc),
-            'members': [list(m) for m in (members or [(0, 0, 'base')])]}
+            'members': [list(m) for m in (members or [(0, 0, 'base')])],
+            'ctx': list(ctx) if ctx else None, 'history': list(HISTORY)}
 
 
 def obs_from_json(j):
@@ -618,27 +689,27 @@ def obs_from_json(j):
     return o
 
 
-def model_replies(drv, value, ops, binder, obs, members):
-    return ask_model(drv, [case_json(value, ops, binder, obs, member_opts(m[0], m[1])) for m in members])
+def model_replies(drv, value, ops, binder, obs, members, ctx=None):
+    return ask_model(drv, [case_json(value, ops, binder, obs, case_opts(m, ctx)) for m in members])
 
 
-def fails(value, ops, drv, kind, binder=None, obs=None, members=None):
+def fails(value, ops, drv, kind, binder=None, obs=None, members=None, ctx=None):
     members = members or [(0, 0, 'base')]
     try:
-        f, _ = evaluate_case(value, ops, model_replies(drv, value, ops, binder, obs, members), binder, obs, members)
+        f, _ = evaluate_case(value, ops, model_replies(drv, value, ops, binder, obs, members, ctx), binder, obs, members, ctx)
     except Exception:
         return None
     return f if f and f[0] == kind else None
 
 
-def shrink(value, ops, drv, kind, binder=None, obs=None, members=None):
+def shrink(value, ops, drv, kind, binder=None, obs=None, members=None, ctx=None):
     """fewer stages, then fewer elements, while the same kind of failure persists"""
     changed = True
     while changed:
         changed = False
         for i in range(len(ops) - 1, -1, -1):
             cand = ops[:i] + ops[i + 1:]
-            if (cand or obs is not None) and fails(value, cand, drv, kind, binder, obs, members):
+            if (cand or obs is not None) and fails(value, cand, drv, kind, binder, obs, members, ctx):
                 ops, changed = cand, True
                 break
         items = None
@@ -650,7 +721,7 @@ def shrink(value, ops, drv, kind, binder=None, obs=None, members=None):
             for i in range(len(items)):
                 cand = items[:i] + items[i + 1:]
                 cv = seqgen.Iter(cand) if isinstance(value, seqgen.Iter) else tuple(cand)
-                if fails(cv, ops, drv, kind, binder, obs, members):
+                if fails(cv, ops, drv, kind, binder, obs, members, ctx):
                     value, changed = cv, True
                     break
             else:
@@ -662,7 +733,7 @@ def shrink(value, ops, drv, kind, binder=None, obs=None, members=None):
                     for j in range(len(x)):
                         cand = items[:i] + [x[:j] + x[j + 1:]] + items[i + 1:]
                         cv = seqgen.Iter(cand) if isinstance(value, seqgen.Iter) else tuple(cand)
-                        if fails(cv, ops, drv, kind, binder, obs, members):
+                        if fails(cv, ops, drv, kind, binder, obs, members, ctx):
                             value, changed, hit = cv, True, True
                             break
                     if hit:
@@ -702,27 +773,37 @@ def gen_case(rng, fname):
     else:
         kind, prof, value, ops, binder = seqgen.pipeline(rng, fname, dict_bias=0.3 if with_dicts else 0.0)
         obs = None
-    return kind, prof, value, ops, binder, obs, members
+    # the context: one of the recipes (those whose flags the function under test depends on more often), made at the
+    # start of the job or - 15 % - just now
+    uses_flag = fname == 'groupBy' or any(a['op'] == 'groupBy' for a in ops)
+    pool = [2, 3, 6, 7, 9, 0] if uses_flag and rng.random() < 0.7 else list(range(len(CONTEXT_RECIPES)))
+    ctx = (rng.choice(pool), rng.random() < 0.15)
+    return kind, prof, value, ops, binder, obs, members, ctx
 
 
 def work(args):
     fname, n_cases, seed, use_model = args
     rng = common.make_rng(seed, 'C13/' + fname)
+    setup_history(common.make_rng(seed, 'C13/history/' + fname))
     drv = common.Driver() if use_model else None
     out = dict(fname=fname, cases=[], failures=[], hist={}, n=0, ood=0, errs={}, kinds={}, sizes={}, stages={},
                profiles={}, lams={}, lazy_lambda=[0, 0, 0], dup_nested=0, twins=0, runs=0, by_opts={}, shapes={},
-               dict_as_collection=0, raw_input=0, strict_shapes={})
+               dict_as_collection=0, raw_input=0, strict_shapes={}, contexts={}, contexts_fresh=0)
     try:
         batch = [gen_case(rng, fname) for _ in range(n_cases)]
         requests, index = [], []
-        for kind, prof, value, ops, binder, obs, members in batch:
+        for kind, prof, value, ops, binder, obs, members, ctx in batch:
             index.append((len(requests), len(members)))
-            requests += [case_json(value, ops, binder, obs, member_opts(m[0], m[1])) for m in members]
+            requests += [case_json(value, ops, binder, obs, case_opts(m, ctx)) for m in members]
         replies = ask_model(drv, requests)
         info = real = None
-        for (kind, prof, value, ops, binder, obs, members), (at, k) in zip(batch, index):
+        for (kind, prof, value, ops, binder, obs, members, ctx), (at, k) in zip(batch, index):
             mrs = replies[at:at + k]
-            f, info = evaluate_case(value, ops, mrs, binder, obs, members)
+            f, info = evaluate_case(value, ops, mrs, binder, obs, members, ctx)
+            r0 = CONTEXT_RECIPES[ctx[0]]
+            ctag = ','.join(sorted(k2 for k2 in r0)) or 'default'
+            out['contexts'][ctag] = out['contexts'].get(ctag, 0) + 1
+            out['contexts_fresh'] += 1 if ctx[1] else 0
             out['n'] += 1
             real, ref = info['real'], info['ref']
             ood = all(r['ref'][0] == 'ood' or (r['model'] or {}).get('err') == 'OOD' for r in info['runs'])
@@ -776,13 +857,14 @@ def work(args):
                 out['twins'] += 1                                   # equal scalars of different type side by side
             nontrivial = any(r['real'][0] == 'ok' and not (r['ref'][0] == 'ood' or (r['model'] or {}).get('err') == 'OOD')
                              for r in info['runs'])
-            out['cases'].append((common.digest([info['text'], repr(value), [list(m) for m in members]]), nontrivial))
+            out['cases'].append((common.digest([info['text'], repr(value), [list(m) for m in members], list(ctx)]), nontrivial))
             if f and len(out['failures']) < 3:
-                sv, sops = shrink(value, ops, drv, f[0], binder, obs, members)
-                g = fails(sv, sops, drv, f[0], binder, obs, members) or f
-                out['failures'].append((g[0], failure_key(sops, info, obs), g[1], replay_of(sv, sops, binder, obs, members)))
+                sv, sops = shrink(value, ops, drv, f[0], binder, obs, members, ctx)
+                g = fails(sv, sops, drv, f[0], binder, obs, members, ctx) or f
+                out['failures'].append((g[0], failure_key(sops, info, obs), g[1], replay_of(sv, sops, binder, obs, members, ctx)))
         out['sample'] = dict(text=info['text'], data=repr(value), real=repr(real)[:200]) if n_cases else None
         out['member_kinds'] = dict(MEMBER_HIST)
+        out['history'] = list(HISTORY[:len(CONTEXT_RECIPES) + N_DECOYS])
     finally:
         if drv:
             drv.close()
@@ -811,22 +893,26 @@ def run(env, res):
         binder = op_from_json(case['let']) if case.get('let') else None
         obs = obs_from_json(case.get('obs'))
         members = [tuple(m) for m in case.get('members') or [(0, 0, 'base')]]
-        mrs = model_replies(env['driver'], value, ops, binder, obs, members)
-        f, info = evaluate_case(value, ops, mrs, binder, obs, members)
+        ctx = tuple(case['ctx']) if case.get('ctx') else None
+        if case.get('history'):
+            setup_history(order=case['history'])        # the create_context calls of the failing process, in their order
+        mrs = model_replies(env['driver'], value, ops, binder, obs, members, ctx)
+        f, info = evaluate_case(value, ops, mrs, binder, obs, members, ctx)
         res.case(common.digest([info['text'], repr(value)]), True, sample=info['text'])
         res.traces += 1
         if f:
-            res.fail(f[0], failure_key(ops, info, obs), f[1], replay_of(value, ops, binder, obs, members))
+            res.fail(f[0], failure_key(ops, info, obs), f[1], replay_of(value, ops, binder, obs, members, ctx))
         return res
     n_cases = 300 if tier == 'quick' else 3000      # (x 2.25 evaluations per case: ~830 000 evaluations thorough)
     jobs = [(f, n_cases, env['seed'], use_model) for f in FUNCTIONS]
     nproc = min(len(jobs), max(1, (os.cpu_count() or 2) - 1), int(os.environ.get('VERIF_NPROC') or (8 if tier == 'quick' else 12)))
     t0 = time.time()
-    with multiprocessing.Pool(nproc) as pool:
+    with multiprocessing.Pool(nproc, maxtasksperchild=1) as pool:      # (a fresh process per job: its own create_context history)
         results = pool.map(work, jobs, chunksize=1)
     per_fn, errs, kinds, sizes, stages, ood = {}, {}, {}, {}, {}, 0
     profiles, lams, lazy_lambda, dup_nested, twins = {}, {}, [0, 0, 0], 0, 0
     by_opts, shapes, member_kinds, strict_shapes, runs, dict_coll, raw = {}, {}, {}, {}, 0, 0, 0
+    contexts, fresh, first_calls = {}, 0, {}
     for out in results:
         for sig, nt in out['cases']:
             res.case(sig, nt)
@@ -839,7 +925,7 @@ def run(env, res):
         ood += out['ood']
         for src, dst in ((out['errs'], errs), (out['kinds'], kinds), (out['sizes'], sizes), (out['stages'], stages),
                          (out['lams'], lams), (out['shapes'], shapes), (out.get('member_kinds', {}), member_kinds),
-                         (out['strict_shapes'], strict_shapes)):
+                         (out['strict_shapes'], strict_shapes), (out['contexts'], contexts)):
             for k, v in src.items():
                 dst[str(k)] = dst.get(str(k), 0) + v
         for k, v in out['profiles'].items():
@@ -849,6 +935,9 @@ def run(env, res):
         for k, v in out['by_opts'].items():
             by_opts[k] = [a + b for a, b in zip(by_opts.get(k, [0, 0, 0]), v)]
         runs += out['runs']
+        fresh += out['contexts_fresh']
+        h0 = (out.get('history') or [None])[0]
+        first_calls[str(h0)] = first_calls.get(str(h0), 0) + 1
         dict_coll += out['dict_as_collection']
         raw += out['raw_input']
         twins += out['twins']
@@ -868,7 +957,9 @@ def run(env, res):
                                   observing_program_shapes=shapes,
                                   dictionaries_iterated_as_collections=dict_coll,
                                   evaluations_on_unconverted_input=raw,
-                                  top_level_type_of_real_results=strict_shapes)
+                                  top_level_type_of_real_results=strict_shapes,
+                                  cases_by_context_recipe=contexts, cases_with_context_made_on_the_spot=fresh,
+                                  jobs_by_first_create_context_call_of_their_process=first_calls)
     res.extra['correspondence_wall_s'] = round(time.time() - t0, 1)
     return res
 
